@@ -1,6 +1,6 @@
 (** C02: -inline and -switch never change what the generated parser accepts or records. *)
 From PegV Require Import Base.Tac Spec.Syntax Spec.Peg Spec.WF Model.Machine Model.SkipCheck Model.Optimize Model.Gen
-  Model.Analyses Model.Emit Model.SEmit Model.Exec Proofs.FirstSound Proofs.OptSound Proofs.OptSwok Proofs.Top Proofs.OptTop Proofs.SEmitFile Proofs.SEmitOpt Properties.Example.
+  Model.Analyses Model.Emit Model.SEmit Model.Exec Proofs.FirstSound Proofs.OptSound Proofs.OptSwok Proofs.Top Proofs.OptTop Proofs.SEmitFile Proofs.SEmitOpt Proofs.EmitUse Proofs.DeepDefault Proofs.OptClosed Properties.Example.
 Local Open Scope nat_scope.
 
 (** For one grammar term [g] (the tree the generator compiles), every combination of the memo and
@@ -64,6 +64,32 @@ Theorem C02_generated_code_switch :
         end.
 Proof. exact generated_code_switch. Qed.
 Print Assumptions C02_generated_code_switch.
+
+(** ... with no side condition on the analysis, on the optimised tree or on the emitter's bookkeeping: the pass introduces
+    no rule reference ([optimize_closed_names]) and keeps every choice at two alternatives or more, so the optimised tree
+    meets the emitter's fuel condition under either -inline setting (Proofs/OptClosed.v, Proofs/CountInline.v). *)
+Theorem C02_generated_code_switch_unconditional :
+  forall g tab rank, wf_b g tab rank = true -> good_grammar g ->
+  (forall r b, nth_error g r = Some (RBody b) -> ranges_ok b = true) ->
+  grammar_alt2 g -> closed_names g ->
+  forall ptx buf penv, good_buf buf -> valid_buf buf ->
+  forall memo inline r rb st0,
+    nth_error g r = Some rb -> rb <> RNil ->
+    slot_ok (optimize g) inline r -> reached (count_rules (optimize g)) r = true ->
+    exists n res evs, peg_parse g ptx buf penv n r = Some (res, evs) /\
+      forall out, xcall buf penv (mk_opts true memo inline (optimize g)) (gen_fn (optimize g) ptx inline) r (reset st0) out ->
+        match res with
+        | Succ p f => exists st', out = Ret true st' /\ pos st' = p /\ Machine.live st' = Syntax.flat f
+        | Fail => exists st', out = Ret false st'
+        end.
+Proof. exact generated_code_switch_all_options. Qed.
+Print Assumptions C02_generated_code_switch_unconditional.
+
+(** the pass keeps the references of a tree defined *)
+Theorem C02_switch_keeps_references_defined :
+  forall g, closed_names g -> closed_names (optimize g).
+Proof. exact optimize_closed_names. Qed.
+Print Assumptions C02_switch_keeps_references_defined.
 
 (** The same without any side condition on the analysis or on the optimised tree: a grammar with a
     well-formedness certificate whose literals are code points and whose ranges are in order (no
@@ -136,6 +162,16 @@ Example C02_switch_nonvacuous :
   mach_view (machine (optimize opt_g) 9 [97; 121]%Z (std_penv [97; 121]%Z) true false 30 0 zero_state) =
   mach_view (machine opt_g 9 [97; 121]%Z (std_penv [97; 121]%Z) true false 30 0 zero_state).
 Proof. vm_compute. repeat split; try reflexivity. discriminate. Qed.
+
+(** non-vacuity of the unconditional code-level theorem: the same grammar meets its syntactic premises, the pass does
+    rewrite it, and the rewritten tree meets the emitter's condition under both -inline settings *)
+Example C02_code_unconditional_nonvacuous :
+  wf_auto opt_g = true /\ good_grammar_b opt_g = true /\ grammar_alt2_b opt_g = true /\ closed_names_b opt_g = true /\
+  forallb (fun rb => match rb with RBody b => ranges_ok b | _ => true end) opt_g = true /\
+  closed_names_b (optimize opt_g) = true /\
+  deep_table_b (optimize opt_g) false = true /\ deep_table_b (optimize opt_g) true = true /\
+  reached (count_rules (optimize opt_g)) 0 = true.
+Proof. vm_compute. repeat split; reflexivity. Qed.
 
 (** non-vacuity: a tree with a well-guarded switch, run with a skip-check flag *)
 Definition sw_g : grammar :=
